@@ -79,7 +79,7 @@ pub fn next(rng: &mut Rng) -> (String, Value) {
             let (ls, err, nl) = scanindexes::lines(rng);
             let joined = mutate_text(rng, &ls.join("\n"), "PKGNAME=\nALL_DEPENDS=x");
             let ls2: Vec<Value> = joined.split('\n').map(|l| codes(l)).collect();
-            ("scanindex".into(), json!({"lines": ls2, "err_at": if err > 0 && rng.chance(1, 2) { err.min(ls.len()) } else { 0 }, "final_nl": tf(nl)}))
+            ("scanindex".into(), json!({"lines": ls2, "err_at": if err > 0 && rng.chance(1, 2) { err.min(ls.len()) } else { 0 }, "final_nl": tf(nl), "err_kind": scanindexes::err_kind(rng), "err_mid": tf(rng.chance(1, 2))}))
         }
         13 => {
             let calls: Vec<Value> = (0..rng.range(0, 6)).map(|_| json!([rng.range(1, 14), codes(&mt!(rng, format!("{}", summaries::int(rng)), "abc\n\n"))])).collect();
